@@ -597,8 +597,14 @@ class SymInt:
         return _pydivmod(_t(o), s.t)
 
     def __truediv__(s, o):
+        if isinstance(o, builtins.int) and not isinstance(o, bool) and o > 0:
+            return SymRatio(s, o)
+        if isinstance(o, float) and o > 0 and o == builtins.int(o):
+            return SymRatio(s, builtins.int(o))
         raise Unmodelled('true division of SymInt (float)')
-    __rtruediv__ = __truediv__
+
+    def __rtruediv__(s, o):
+        raise Unmodelled('true division by SymInt (float)')
 
     def __abs__(s):
         if s.lo is not None and s.lo >= 0:
@@ -799,6 +805,37 @@ class SymInt:
     def imag(s): return 0
 
 
+class SymRatio:
+    """num / den with a concrete positive den: what int(a) / 2**f of a symbolic fixed-point value is.  Only truth value and
+    comparisons are modelled (exact rational arithmetic); anything float-like raises Unmodelled."""
+    __slots__ = ('num', 'den')
+
+    def __init__(s, num, den):
+        s.num, s.den = num, den
+
+    def _other(s, o):
+        if isinstance(o, SymRatio):
+            return o.num * s.den, s.num * o.den
+        if isinstance(o, (builtins.int, SymInt)):
+            return o * s.den, s.num
+        if isinstance(o, float):
+            from fractions import Fraction
+            fr = Fraction(o)
+            return fr.numerator * s.den, s.num * fr.denominator
+        raise Unmodelled(f'SymRatio compared with {type(o)}')
+
+    def __bool__(s): return bool(s.num != 0)
+    def __eq__(s, o): b, a = s._other(o); return a == b
+    def __ne__(s, o): b, a = s._other(o); return a != b
+    def __lt__(s, o): b, a = s._other(o); return a < b
+    def __le__(s, o): b, a = s._other(o); return a <= b
+    def __gt__(s, o): b, a = s._other(o); return a > b
+    def __ge__(s, o): b, a = s._other(o); return a >= b
+    __hash__ = None
+    def __float__(s): raise Unmodelled('float() of a symbolic ratio')
+    def __repr__(s): return f'SymRatio({s.num}/{s.den})'
+
+
 def _bits_of(x, n):
     """list of n bit terms of nonnegative x (SymInt or int)."""
     if isinstance(x, builtins.int):
@@ -940,6 +977,9 @@ class _IntMeta(type):
             return x
         if builtins.isinstance(x, SymBool):
             return x._asint()
+        if not a and not builtins.isinstance(x, (builtins.int, float, str, bytes)) and hasattr(x, '__int__'):
+            r = x.__int__()         # e.g. a field element whose value is symbolic
+            return r if builtins.isinstance(r, SymInt) else builtins.int(r)
         return builtins.int(x, *a)
 
     def __getattr__(cls, name):
